@@ -34,7 +34,7 @@ def _semantics(ctx, cq, op):
 
 
 @rule('SA-IDENT')
-@props('C02', 'C07', 'C16')
+@props('C02', 'C07', 'C09', 'C16')
 def ident(ctx):
     obs = []
     nsites = 0
@@ -93,4 +93,83 @@ def ident(ctx):
         raise AnalysisError('anchor-vanished: identity-idiom sites on tree nodes (%d)' % nidiom)
     # make the count visible even when there are no == sites left
     obs.append(Ob('SA-IDENT', 'identity-idiom-sites>=8', True, 'pycdlib/pycdlib.py:1', '%d sites use id()/is on entity classes' % nidiom))
+    return obs
+
+
+def _kind(ctx, fi, e):
+    """('tuple',) / ('classes', frozenset) / None for the static type of an identity operand"""
+    t = ctx.t.expr_type(e, fi)
+    if t is None:
+        return None
+    if t[0] == 'tuple':
+        return ('tuple',)
+    cl = frozenset(type_classes(t))
+    if cl and t[0] in ('cls', 'union', 'opt'):
+        return ('classes', cl)
+    return None
+
+
+def _related(ctx, a, b):
+    """some class of a equals, or is an ancestor/descendant of, some class of b"""
+    def anc(q):
+        out, todo = {q}, [q]
+        while todo:
+            c = ctx.m.classes.get(todo.pop())
+            for base in (c.bases if c is not None and c.bases else ()):
+                bq = base if base in ctx.m.classes else None
+                if bq is None:
+                    for k in ctx.m.classes:
+                        if k.split('.')[-1] == str(base).split('.')[-1]:
+                            bq = k
+                if bq and bq not in out:
+                    out.add(bq)
+                    todo.append(bq)
+        return out
+    return any(anc(x) & anc(y) for x in a for y in b)
+
+
+@rule('SA-IDENT.operands')
+@props('C02', 'C04', 'C07', 'C14')
+def ident_operands(ctx):
+    """An identity test compares two things that can be the same object.
+
+    `id(a) == id(b)`, `a is b` and their negations are how this code base finds "this very record" in a list of links.
+    When the static types of the two operands cannot denote the same object - one is an element of a list of
+    `(record, flag)` tuples and the other a record; an Inode and a DirectoryRecord - the test is constantly false
+    (or constantly true for the negation): a filter built on it removes nothing, a search never finds its target.
+    The types come from the PEP-484 comments the code carries; an operand the resolver cannot type is not judged."""
+    obs = []
+    n = 0
+    for fi in ctx.m.pkg_functions():
+        for node in ctx.own_nodes(fi):
+            if not (isinstance(node, ast.Compare) and len(node.ops) == 1):
+                continue
+            op = node.ops[0]
+            a, b = node.left, node.comparators[0]
+            if isinstance(op, (ast.Eq, ast.NotEq)):
+                if not (isinstance(a, ast.Call) and norm(a.func) == 'id' and isinstance(b, ast.Call) and norm(b.func) == 'id' and a.args and b.args):
+                    continue
+                a, b = a.args[0], b.args[0]
+            elif isinstance(op, (ast.Is, ast.IsNot)):
+                if any(isinstance(x, ast.Constant) for x in (a, b)):
+                    continue
+            else:
+                continue
+            ka, kb = _kind(ctx, fi, a), _kind(ctx, fi, b)
+            if ka is None or kb is None:
+                continue
+            n += 1
+            ok = True
+            if ka[0] != kb[0]:
+                ok = False
+            elif ka[0] == 'classes' and not _related(ctx, ka[1], kb[1]):
+                ok = False
+            ordinal = sum(1 for x in ctx.own_nodes(fi) if isinstance(x, ast.Compare) and norm(x) == norm(node) and (x.lineno, x.col_offset) < (node.lineno, node.col_offset))
+            obs.append(Ob('SA-IDENT.operands', '%s|%s%s' % (fi.qual, norm(node)[:90], '#%d' % ordinal if ordinal else ''), ok, ctx.loc(fi, node),
+                          '' if ok else '`%s` compares the identity of a %s with that of a %s: they are never the same object, so the test is constant - a filter built on '
+                          'it keeps (or drops) everything, a search never finds the entry it is looking for' % (
+                              norm(node), 'tuple' if ka[0] == 'tuple' else '/'.join(sorted(c.split('.')[-1] for c in ka[1])),
+                              'tuple' if kb[0] == 'tuple' else '/'.join(sorted(c.split('.')[-1] for c in kb[1])))))
+    if n < 10:
+        raise AnalysisError('anchor-vanished: identity comparisons with typed operands (%d)' % n)
     return obs
